@@ -93,7 +93,7 @@ def finish(rep, level='other', explanation='', seed=0, extra_cov=None):
             new.append(v)
     for k in sorted(seen_known):
         print('KNOWN-FINDING: property=%s %s' % (pid, known_keys[k].get('what', k)))
-    vdir = os.path.join(VERIF, 'violations')
+    vdir = os.path.join(VERIF, 'violations') if not os.environ.get('VERIF_NO_EVIDENCE') else os.path.join(VERIF, '.cache', 'scratch-violations')
     for v in new:
         os.makedirs(vdir, exist_ok=True)
         k = vkey(pid, v)
@@ -142,6 +142,8 @@ def finish(rep, level='other', explanation='', seed=0, extra_cov=None):
     ev = dict(property_id=pid, tier=rep.tier, seed=seed, level=level, coverage=cov,
               assumptions=rep.assumptions, wall_s=round(time.time() - rep.t0, 2), violations=len(new))
     edir = os.path.join(VERIF, 'evidence')
+    if os.environ.get('VERIF_NO_EVIDENCE'):
+        edir = os.path.join(VERIF, '.cache', 'scratch-evidence')
     os.makedirs(edir, exist_ok=True)
     tmp = os.path.join(edir, '.%s.json.tmp%d' % (pid, os.getpid()))
     with open(tmp, 'w') as f:
